@@ -19,4 +19,6 @@ for id in "$@"; do
   clause=$(echo "$out" | grep -m1 -o 'clause=[^ ]*')
   echo "$(basename "$PATCH") $id exit=$code $clause $(echo "$out" | grep -c '^VIOLATION') violation line(s); $(echo "$out" | tail -1)"
   if [ "${VERBOSE:-0}" = 1 ]; then echo "$out"; fi
+  # KEEP=<dir>: keep the replay files written for the mutated tree (used to harvest regression witnesses)
+  if [ -n "${KEEP:-}" ] && [ -d "$W/run" ]; then mkdir -p "$KEEP"; cp "$W"/run/*.json "$KEEP"/ 2>/dev/null; fi
 done
